@@ -99,7 +99,7 @@ func init() {
 		regexp2.SetTimeoutCheckPeriod(period)
 		h := &clockHarness{gates: map[string]chan struct{}{}, hit: map[string]chan struct{}{}}
 		var gmu sync.Mutex
-		regexp2.VerifOnPoint = func(point string, obj any, a, b int) {
+		regexp2.SetVerifOnPoint(func(point string, obj any, a, b int) {
 			if strings.HasPrefix(point, "clock") {
 				h.mu.Lock()
 				if len(h.events) < 200000 {
@@ -122,7 +122,7 @@ func init() {
 				close(hit)
 				<-gate
 			}
-		}
+		})
 		arm := func(point string) (hit chan struct{}, release func()) {
 			g, hc := make(chan struct{}), make(chan struct{})
 			gmu.Lock()
@@ -233,7 +233,7 @@ func init() {
 			el := time.Since(t0)
 			h.record("H10 StopTimeoutClock during a live deadline", "the match still reports its timeout within d + 20 periods + 250ms", isTimeout(err) && el <= 200*time.Millisecond+20*period+250*time.Millisecond, true, el, fmt.Sprint(err))
 		}
-		regexp2.VerifOnPoint = nil
+		regexp2.SetVerifOnPoint(nil)
 		out := map[string]any{"checks": h.checks, "events": h.events, "period_ms": 1}
 		enc := json.NewEncoder(os.Stdout)
 		enc.SetEscapeHTML(false)
